@@ -960,3 +960,57 @@ def increment_of(stmt, by=None):
                                not isinstance(amt.value, bool)):
         return None
     return name, amt
+
+
+# ---------------------------------------------------------------------------------------------
+# shared sweep: statistics that must not depend on the scale of their data contain no absolute
+# tolerance
+
+_TOL_CALLS = {'isclose', 'allclose'}
+
+
+def absolute_tolerance_sites(fnode):
+    """[(node, description)] of absolute-tolerance tests in a function body: calls of
+    np.isclose / np.allclose / math.isclose (the default atol / abs_tol is an absolute number;
+    an explicit `atol=0` / `abs_tol=0` makes the test relative and is not listed), and
+    comparisons of an expression with a small positive float constant (0 < c <= 1e-3)."""
+    out = []
+    for n in ast.walk(fnode):
+        if isinstance(n, ast.Call):
+            f = n.func
+            nm = f.attr if isinstance(f, ast.Attribute) else (f.id if isinstance(f, ast.Name)
+                                                              else None)
+            if nm in _TOL_CALLS:
+                kw = dict((k.arg, k.value) for k in n.keywords)
+                a = kw.get('atol', kw.get('abs_tol'))
+                if isinstance(f, ast.Attribute) and isinstance(f.value, ast.Name) and \
+                        f.value.id == 'math' and a is None:
+                    continue       # math.isclose is relative by default
+                if a is not None and isinstance(a, ast.Constant) and a.value == 0:
+                    continue
+                out.append((n, '{}(...) with an absolute tolerance'.format(nm)))
+        elif isinstance(n, ast.Compare):
+            for e in [n.left] + list(n.comparators):
+                if isinstance(e, ast.Constant) and isinstance(e.value, float) and \
+                        0 < abs(e.value) <= 1e-3:
+                    out.append((n, 'comparison with the constant {!r}'.format(e.value)))
+    return out
+
+
+def scale_free_sweep(ctx, fns, why):
+    """Every function in `fns` is free of absolute-tolerance tests.  The expected count is zero,
+    so the matcher is exercised on a built-in positive example on every run."""
+    probe = ast.parse('def f(v, w):\n'
+                      '    if np.isclose(v, 0.):\n        return 1\n'
+                      '    if abs(w) < 1e-8:\n        return 2\n'
+                      '    return np.allclose(v, w, atol=0)\n').body[0]
+    if len(absolute_tolerance_sites(probe)) != 2:
+        raise AnalysisError('absolute-tolerance matcher does not fire on its positive example')
+    for fn in fns:
+        sites = absolute_tolerance_sites(fn.node)
+        if not sites:
+            ctx.ok(fn, 'no absolute tolerance', 'no isclose / allclose / comparison with a small '
+                   'constant', fn=fn, node=fn.node)
+        for (node, what) in sites:
+            ctx.bad(fn, 'no absolute tolerance', '{}: {} - {}'.format(
+                src(node)[:60], what, why), fn=fn, node=node)
